@@ -783,7 +783,21 @@ bool TypeAuditor::ViRecursion(Cursor iter) {
   }
 
   EndScope(iter->pos.start);
-  return SetCurrent(iterationValue.value());
+  // Note: the value is the initial one when no iteration is made, so the result type covers both
+  const auto result = env.Merge(
+    std::get<Typification>(initType.value()),
+    std::get<Typification>(iterationValue.value())
+  );
+  if (!result.has_value()) {
+    OnError(
+      SemanticEID::typesNotEqual,
+      iter(iterationIndex).pos.start,
+      iterationValue.value(),
+      initType.value()
+    );
+    return false;
+  }
+  return SetCurrent(result.value());
 }
 
 bool TypeAuditor::ViDecart(Cursor iter) {
